@@ -818,3 +818,29 @@ Proof.
   - intros f. split; reflexivity.
   - intros k v [].
 Qed.
+
+(* ---- custom codon sets: the codon lists are complete iff the words cannot overlap one another ------------------------------------ *)
+Definition codons3 (ws : list str) : bool := forallb (fun w => Nat.eqb (length w) 3) ws.
+Lemma codons3_words ws : codons3 ws = true -> codon_words ws.
+Proof.
+  intros H. unfold codons3 in H. rewrite forallb_forall in H. apply Forall_forall. intros w Hw.
+  apply Nat.eqb_eq. apply H. exact Hw.
+Qed.
+
+Theorem custom_codons_complete ws s f : codons3 ws = true -> no_overlap ws = true -> gapfree s = true ->
+  forall i e, In (i, e) (hits ws s f) <-> e = (i + 3)%nat /\ codon_at ws s f i.
+Proof.
+  intros C NO G i e. rewrite (hits_gapfree_char ws s f (codons3_words ws C) NO G). unfold codon_at. tauto.
+Qed.
+
+(* re.finditer reports non-overlapping matches: with words that can overlap (alternative start codons ATG|GTG|TTG: the G of ATG
+   begins GTG) an in-frame codon is hidden behind an out-of-frame one *)
+Theorem custom_overlap_refuted :
+  exists ws s f i, codons3 ws = true /\ gapfree s = true /\ no_overlap ws = false /\
+                   codon_at ws s f i /\ ~ In (Z.of_nat i) (starts_w ws s f).
+Proof.
+  exists [bs "ATG"%bs; bs "GTG"%bs; bs "TTG"%bs], (bs "AATGTGCCCTAA"%bs), 0, 3%nat.
+  split; [reflexivity|]. split; [reflexivity|]. split; [reflexivity|]. split.
+  - unfold codon_at. split; [cbn; lia|]. split; reflexivity.
+  - vm_compute. intros [].
+Qed.
